@@ -103,6 +103,19 @@ static cocls::async<void> access_co(G &gen, int style, int arg, Obs &o) {
     }
     o.done = true;
 }
+// one consumer coroutine performs every access in a single activation (the other mode starts a fresh outermost activation
+// per access): what the aggregate readies in between waits in this thread's ready queue
+static bool g_one_coroutine;
+template <typename G>
+static cocls::async<void> consume_all(G &gen, int style, int style2, int limit, std::vector<Obs> &out, bool &fin) {
+    for (int i = 0; i < limit; i++) {
+        Obs o;
+        co_await access_co(gen, (i % 2) ? style2 : style, 1000 + i, o);
+        out.push_back(o);
+        if (o.kind != 1) break;
+    }
+    fin = true;
+}
 template <typename G>
 static Obs access_sync(G &gen, int style, int arg) {
     constexpr bool has_arg = !G::arg_is_void;
@@ -147,6 +160,7 @@ static std::string describe(bool with_arg, const std::vector<int> &src, int styl
     o << "arg=" << (with_arg ? 1 : 0) << ";sources=";
     for (size_t i = 0; i < src.size(); i++) o << (i ? "," : "") << src_names[src[i]];
     o << ";style=" << cs_names[style] << ";style2=" << cs_names[style2] << ";stop_after=" << stop_after;
+    if (g_one_coroutine) o << ";consumer=one-coroutine";
     return o.str();
 }
 
@@ -177,13 +191,31 @@ static void run_case_t(seqx::Runner &R, bool with_arg, const std::vector<int> &s
         std::vector<int> args_passed;
         int limit = stop_after >= 0 ? stop_after : (any_inf ? 6 : 100);
         int final_kind = 0;
+        std::vector<Obs> pre;
+        if (g_one_coroutine) {
+            bool fin = false;
+            pre.reserve((size_t)limit + 1);
+            consume_all(*agg, style, style2, limit, pre, fin).detach();
+            for (int k = 0; k < MAXS && !fin; k++)
+                if (c.gate_used[k] && !c.gate_resolved[k]) {
+                    c.gate_resolved[k] = true;
+                    c.gate_p[k](1);
+                }
+            if (!fin) R.fail("aggr/async-access-never-completed", "the consumer coroutine did not finish after all gates were opened (%zu accesses completed)", pre.size());
+        }
         for (int i = 0; i < limit && !R.case_fail; i++) {
             int st = (i % 2) ? style2 : style;
             int arg = 1000 + i;
-            args_passed.push_back(arg);
             Obs o;
             R.step();
-            if (st == NEXT_VALUE || st == CALL_WAIT)
+            if (g_one_coroutine) {
+                if ((size_t)i >= pre.size()) break;
+                o = pre[(size_t)i];
+                args_passed.push_back(arg);
+            } else
+                args_passed.push_back(arg);
+            if (g_one_coroutine) {
+            } else if (st == NEXT_VALUE || st == CALL_WAIT)
                 o = access_sync(*agg, st, arg);
             else {
                 access_co(*agg, st, arg, o).detach();
@@ -291,6 +323,11 @@ static void enum_sources(seqx::Runner &R, int maxn, std::vector<int> &src, int f
                 for (int stop = -1; stop <= 2; stop++) {
                     if (stop == 0) continue;
                     if (R.next_case()) run_case(R, with_arg != 0, src, st, st2, stop);
+                    if (!blocking(st) && !blocking(st2)) {
+                        g_one_coroutine = true;
+                        if (R.next_case()) run_case(R, with_arg != 0, src, st, st2, stop);
+                        g_one_coroutine = false;
+                    }
                 }
             }
     if ((int)src.size() == maxn) return;
@@ -328,7 +365,9 @@ void seqx_replay(seqx::Runner &R, const std::string &c) {
     }
     int stop = atoi(c.c_str() + c.find("stop_after=") + 11);
     R.next_case();
+    g_one_coroutine = c.find(";consumer=one-coroutine") != std::string::npos;
     run_case(R, with_arg, src, st, st2, stop);
+    g_one_coroutine = false;
 }
 
 SEQX_MAIN()
